@@ -630,6 +630,64 @@ def emit_settings(t):
 EXTRACTORS.append((extract_settings, emit_settings))
 
 
+def extract_timerej(repo):
+    out = dict(staLtaOps=None, maxValueOp=None)
+    try:
+        with open(os.path.join(repo, "hvsrpy", "window_rejection.py")) as f:
+            tree = ast.parse(f.read())
+        src = {n.name: ast.unparse(n) for n in tree.body if isinstance(n, ast.FunctionDef)}
+        g = grab(src["sta_lta_window_rejection"], r"np\.max\(sta_values / lta\) " + CMP + r" max_sta_lta_ratio or np\.min\(sta_values / lta\) " + CMP + r" min_sta_lta_ratio")
+        if g:
+            out["staLtaOps"] = (OPS[g[0]], OPS[g[1]])
+        g = grab(src["maximum_value_window_rejection"], r"if maximum_value " + CMP + r" maximum_value_threshold")
+        if g:
+            out["maxValueOp"] = OPS[g[0]]
+    except Exception:
+        pass
+    return out
+
+
+def emit_timerej(t):
+    return ["def staLtaOps : Option (Nat × Nat) := " + ("none" if t["staLtaOps"] is None else f"some ({t['staLtaOps'][0]}, {t['staLtaOps'][1]})"),
+            "def maxValueOp : Option Nat := " + ("none" if t["maxValueOp"] is None else f"some {t['maxValueOp']}")]
+
+
+EXTRACTORS.append((extract_timerej, emit_timerej))
+
+
+def lean_string(x):
+    return '"' + x.replace("\\", "\\\\").replace('"', '\\"') + '"'
+
+
+def extract_objectio(repo):
+    out = dict(azimuthLabelFormat=None, azimuthRegex=None)
+    try:
+        with open(os.path.join(repo, "hvsrpy", "object_io.py")) as f:
+            src = f.read()
+        g = re.search(r'f"(azimuth \{[^"]*)"', src)
+        if g:
+            out["azimuthLabelFormat"] = g.group(1)
+    except Exception:
+        pass
+    try:
+        with open(os.path.join(repo, "hvsrpy", "regex.py")) as f:
+            tree = ast.parse(f.read())
+        for node in tree.body:
+            if isinstance(node, ast.Assign) and ast.unparse(node.targets[0]) == "azimuth_expr" and isinstance(node.value, ast.Constant):
+                out["azimuthRegex"] = node.value.value
+    except Exception:
+        pass
+    return out
+
+
+def emit_objectio(t):
+    return ["def azimuthLabelFormat : Option String := " + ("none" if t["azimuthLabelFormat"] is None else "some " + lean_string(t["azimuthLabelFormat"])),
+            "def azimuthRegex : Option String := " + ("none" if t["azimuthRegex"] is None else "some " + lean_string(t["azimuthRegex"]))]
+
+
+EXTRACTORS.append((extract_objectio, emit_objectio))
+
+
 def extract(repo):
     tables = {}
     lines = ["/-! GENERATED by tools/extract_tables.py from the hvsrpy working tree -- do not edit. -/",
